@@ -109,3 +109,47 @@ Theorem typed_point_refused_iff : forall s fs : sys,
   field_call true (PTyped s) fs = Refused <-> s <> fs.
 Proof. exact CoordsProofs.typed_point_refused_iff. Qed.
 Print Assumptions typed_point_refused_iff.
+
+(* ---- frames related by a rotation (coordinates_rotate) and their curvilinear children ---------------------- *)
+
+Theorem rotation_roundtrip : forall (ax : axis) (al : R) (p : V3),
+  from_parent ax al (to_parent ax al p) = p /\ to_parent ax al (from_parent ax al p) = p.
+Proof. intros ax al p. split; [apply CoordsProofs.from_to_parent | apply CoordsProofs.to_from_parent]. Qed.
+Print Assumptions rotation_roundtrip.
+
+Theorem rotation_preserves_dot : forall (ax : axis) (al : R) (u v : V3),
+  dot Cart (to_parent ax al u) (to_parent ax al v) = dot Cart u v.
+Proof. exact CoordsProofs.to_parent_dot. Qed.
+Print Assumptions rotation_preserves_dot.
+
+Theorem dot_curv_rotated : forall (s : sys) (ax : axis) (al : R) (u v : V3),
+  dot s u v = dot Cart (curv_rotated_to_parent s ax al u) (curv_rotated_to_parent s ax al v).
+Proof. exact CoordsProofs.dot_curv_rotated. Qed.
+Print Assumptions dot_curv_rotated.
+
+Theorem curv_rotated_roundtrip : forall (s : sys) (ax : axis) (al : R) (p q : V3),
+  in_domain s p -> in_domain s q ->
+  from_parent ax al (curv_rotated_to_parent s ax al p) = to_cart s q -> p = q.
+Proof. exact CoordsProofs.curv_rotated_roundtrip. Qed.
+Print Assumptions curv_rotated_roundtrip.
+
+(* ---- points: absent coordinates read as 0; a setter changes exactly its own coordinate ----------------------- *)
+
+Theorem point_absent_is_zero : forall (A : Type) (zero : A) (i : nat), pget zero [] i = zero.
+Proof. exact @CoordsProofs.pget_nil. Qed.
+Print Assumptions point_absent_is_zero.
+
+Theorem point_set_then_get : forall (A : Type) (zero : A) (l : list A) (i : nat) (v : A),
+  pget zero (pset zero l i v) i = v.
+Proof. exact @CoordsProofs.pget_pset_same. Qed.
+Print Assumptions point_set_then_get.
+
+Theorem point_set_keeps_others : forall (A : Type) (zero : A) (l : list A) (i j : nat) (v : A),
+  i <> j -> pget zero (pset zero l i v) j = pget zero l j.
+Proof. exact @CoordsProofs.pget_pset_other. Qed.
+Print Assumptions point_set_keeps_others.
+
+Theorem point_set_length : forall (A : Type) (zero : A) (l : list A) (i : nat) (v : A),
+  length (pset zero l i v) = Nat.max (length l) (S i).
+Proof. exact @CoordsProofs.pset_length. Qed.
+Print Assumptions point_set_length.
